@@ -673,6 +673,14 @@ fn gen_svr_cfg(r: &mut Rng, kind: usize, force_dup: bool) -> SvrCfg {
             let b = r.below(n);
             if a != b {
                 rows[b] = rows[a].clone();
+                if r.bool(0.4) {
+                    // a last-bit near-duplicate (the same point produced by two different computations): the
+                    // curvature K11 + K22 - 2 K12 of such a pair is rounding noise of either sign
+                    let j = r.below(rows[b].len());
+                    let v = rows[b][j];
+                    let bumped = f64::from_bits(if v == 0.0 { 1 } else if (v > 0.0) == r.bool(0.5) { v.to_bits() + 1 } else { v.to_bits() - 1 });
+                    rows[b][j] = bumped;
+                }
                 if r.bool(0.5) {
                     y[b] = y[a];
                 }
@@ -964,6 +972,19 @@ fn svr(c: &mut Case) {
     with_kernel!(&cfg.k, svr_fit_check(c, &cfg));
 }
 
+/// linear / polynomial SVR on data with forced (near-)duplicate rows and parameters in the zone where the
+/// step budget is assertable (C <= 10, tol >= 1e-3): termination must not depend on the sign of the
+/// rounding-noise curvature of a near-duplicate pair
+fn svr_near_dup(c: &mut Case) {
+    let kind = *c.rng.pick(&[0, 0, 2]);
+    let mut cfg = gen_svr_cfg(&mut c.rng, kind, true);
+    cfg.c = c.rng.logu(0.1, 10.0);
+    cfg.tol = c.rng.logu(1e-3, 1e-2);
+    c.describe(json!({"what": "SVR fit with (near-)duplicate rows: termination, feasibility, KKT", "config": cfg.json()}));
+    svr_buckets(c, &cfg);
+    with_kernel!(&cfg.k, svr_fit_check(c, &cfg));
+}
+
 /// kernels that are not PSD (sigmoid, polynomial with negative coef0): feasibility and expansion only,
 /// under a step budget whose exhaustion is counted as skipped
 fn svr_not_psd(c: &mut Case) {
@@ -1121,6 +1142,7 @@ fn main() {
             Family::new("svc_enum_n5_e2", 4000, f5 * f5 * f5, svc_enum_n5_e2).exhaustive(false, true),
             Family::new("svc_enum_n6_e1", 4000, f6 * f6, svc_enum_n6_e1).exhaustive(false, true),
             Family::new("svr", 3000, 150000, svr),
+            Family::new("svr_near_dup", 1500, 40000, svr_near_dup),
             Family::new("svr_not_psd", 400, 10000, svr_not_psd),
             Family::new("kernels", 3000, 80000, kernels),
             Family::new("gram", 1500, 30000, gram),
